@@ -408,7 +408,9 @@ func genC18(c *Cfg, emit func([]string)) {
 	// (e) legacy positional arguments, per known and unknown channel, 0..6 arguments
 	chans := []string{"nft", "dcdac", "ndm", "rub", "it", "ct", "hermitage", "dcrsb", "minetoken", "invclass", "vote", "nmmmulti", "invmulti", "dcmulti",
 		"curaed", "curbhd", "curtry", "currub", "curusd", "otf", "vt", "fiat", "NFT"}
-	argv := func() string { return pick("=x", "=a0", "=b0", "=A1", "=A2", "=S1", "=F1", "=G1", "-", "=0OIl", "=XYZ") }
+	argv := func() string {
+		return pick("=x", "=a0", "=b0", "=A1", "=A2", "=S1", "=F1", "=G1", "-", "=0OIl", "=XYZ")
+	}
 	for _, ch := range chans {
 		for n := 0; n <= 6; n++ {
 			reps := 1
